@@ -35,10 +35,12 @@ def plan(tier, seed):
     # packets of two flows (so packet ids repeat) on one wire; and a wire reached through another wire with the same id
     cfgs.append(dict(kind="wire", loss=None, N=n - 1, gaps=["S", 1, 2], order=0, twoflows=1))
     cfgs.append(dict(kind="wire", loss=None, N=n - 1, gaps=["S", 1, 2], order=0, behind=1))
+    # the same packet object travels a second path too (Hub fan-out) and enters another wire one second later
+    cfgs.append(dict(kind="wire", loss=None, N=n - 1, gaps=["S", 1, 2], order=0, fanout=1))
     for loss in (None, 0.5):
         cfgs.append(dict(kind="cable", loss=loss, N=n - 1 if loss is None else n - 2, gaps=["S", 1, 2], order=0))
     # every configuration once more with long fixed workloads (state that only breaks after hundreds of packets)
-    nlong = explore.add_long(cfgs, 300 if quick else 1000)
+    nlong = explore.add_long(cfgs, 300 if quick else 1000, burst=1100)
     ndebug = explore.add_debug_variants(cfgs)      # the same with every element constructed with debug=True
     return {"cfgs": cfgs, "budget": None,
             "bound": ("%d long fixed workloads (periodic arrival patterns); %d configurations repeated with debug=True; " % (nlong, ndebug)) + ("Wire: N<=%d (lossless) / %d (loss 0.5), delays {0,1,2,3}^N, loss rates {None,0,0.5,1}; Cable: N<=%d / %d over both directions" % (n, n - 1, n - 1, n - 2))}
@@ -67,6 +69,14 @@ def execute(ch, cfg):
     class Front:
         def put(self, pkt):
             ends[pkt.flow_id if ndir == 2 else 0].put(pkt)
+            if cfg.get("fanout"):
+                # a repeater (Hub) hands the very same object to a second path as well, which reaches ITS wire one
+                # second later (a port in between); the wire under test must time the packet by its own entry instant
+                def later(p=pkt):
+                    yield env.timeout(1)
+                    side[0].put(p)
+                env.process(later())
+    side = []
 
     class Relog:
         """entry tap of the wire under test when it sits behind another wire: the arrival is what comes out of the first wire"""
@@ -85,6 +95,10 @@ def execute(ch, cfg):
         if cfg["kind"] == "wire":
             w = Wire(env, delay_dist, loss)
             w.out = net.sink(0)
+            if cfg.get("fanout"):
+                w2 = Wire(env, lambda: 0, wire_id=1)
+                w2.out = type("Null", (), {"put": staticmethod(lambda p: None)})()
+                side.append(w2)
             if cfg.get("behind"):
                 first = Wire(env, lambda: 1)      # same default wire id as the wire under test
                 first.out = Relog(w)
@@ -170,6 +184,17 @@ def execute(ch, cfg):
 
 def explain(dirs, calls, loss):
     """Backtracking attribution of the draw log to packets; returns None if some attribution satisfies the law."""
+    import sys
+    lim = sys.getrecursionlimit()
+    if len(calls) * 2 + 200 > lim:
+        sys.setrecursionlimit(len(calls) * 2 + 200)     # the oracle recurses once per draw; restored before returning
+    try:
+        return _explain(dirs, calls, loss)
+    finally:
+        sys.setrecursionlimit(lim)
+
+
+def _explain(dirs, calls, loss):
     nd = len(dirs)
     best = [(-1, ("C10.law", "unexplained", ""))]
 
